@@ -143,6 +143,7 @@ type Conn struct {
 	reqout chan *SrvReq
 	rchan  chan *Fcall
 	done   chan bool
+	closed bool // the client is gone; set by close() under the lock
 
 	// stats
 	nreqs   int    // number of requests processed by the server
@@ -402,7 +403,11 @@ func (req *SrvReq) Respond() {
 	}
 
 	if (status & reqFlush) == 0 {
-		conn.reqout <- req
+		select {
+		case conn.reqout <- req:
+		case <-conn.done:
+			// connection closed, the sender is gone
+		}
 	}
 
 	/* remove the request and all requests flushing it; only now, with the
@@ -431,6 +436,7 @@ func (req *SrvReq) Respond() {
 		delete(conn.reqs, req.Tc.Tag)
 		flushreqs = req.flushreq
 	}
+	lastreq := conn.closed && len(conn.reqs) == 0
 	conn.Unlock()
 
 	// process the next request with the same tag (if available)
@@ -443,6 +449,12 @@ func (req *SrvReq) Respond() {
 	// the flushes may be in a tag group too
 	for freq := flushreqs; freq != nil; freq = freq.flushnext {
 		freq.Respond()
+	}
+
+	// the connection closed while requests were executing and this was
+	// the last of them
+	if lastreq {
+		conn.destroyFids()
 	}
 }
 
